@@ -1,6 +1,6 @@
 (* Lemmas for C09 over model/Udp.v: invariants of every execution of the channel-level state
    machine (induction over the step list). *)
-From Coq Require Import List Arith ZArith Lia Bool.
+From Coq Require Import List Arith ZArith NArith Lia Bool.
 From L4.gen Require Import Shape.
 From L4.model Require Import Udp.
 Import ListNotations.
@@ -407,19 +407,19 @@ Proof.
 
 (* ------------------------------------------------------------------ witnesses (the code before the repair) *)
 
-Definition D (a i n : nat) : pkt := {| src := a; pid := i; size := n |}.
+Definition D (a i : nat) (n : N) : pkt := {| src := a; pid := i; size := n |}.
 
 (* a datagram, the handler reads it and returns, Close reaches close(readCh), a second datagram
    arrives before the loop has seen the notification: the loop sends on the closed channel *)
 Definition panic_witness : list step :=
-  [SockRecv (D 7 1 100); LoopRecv; LoopSend; ConnRead 0 9000; HandlerReturn 0; CloseStep 0; CloseStep 0;
-   SockRecv (D 7 2 100); LoopRecv; LoopSend].
+  [SockRecv (D 7 1 100%N); LoopRecv; LoopSend; ConnRead 0 9000%N; HandlerReturn 0; CloseStep 0; CloseStep 0;
+   SockRecv (D 7 2 100%N); LoopRecv; LoopSend].
 
 (* the handler never reads: five datagrams fill readCh, the loop blocks in the send of the sixth,
    the handler returns and Close closes the channel under the blocked sender *)
 Definition panic_witness_blocked : list step :=
-  [SockRecv (D 7 1 8); LoopRecv; LoopSend; SockRecv (D 7 2 8); LoopRecv; LoopSend; SockRecv (D 7 3 8); LoopRecv; LoopSend;
-   SockRecv (D 7 4 8); LoopRecv; LoopSend; SockRecv (D 7 5 8); LoopRecv; LoopSend; SockRecv (D 7 6 8); LoopRecv;
+  [SockRecv (D 7 1 8%N); LoopRecv; LoopSend; SockRecv (D 7 2 8%N); LoopRecv; LoopSend; SockRecv (D 7 3 8%N); LoopRecv; LoopSend;
+   SockRecv (D 7 4 8%N); LoopRecv; LoopSend; SockRecv (D 7 5 8%N); LoopRecv; LoopSend; SockRecv (D 7 6 8%N); LoopRecv;
    HandlerReturn 0; CloseStep 0; CloseStep 0; LoopSend].
 
 Lemma legacy_panics : exists ts s, run legacy_cfg init ts = Some s /\ panicked s = true.
@@ -431,10 +431,10 @@ Proof. exists panic_witness_blocked. eexists. split; [vm_compute; reflexivity|re
    association 1, then handler 0 returns and Close notifies again: the loop deletes the entry of
    association 1, which is alive; the next datagram creates association 2 next to it *)
 Definition stale_witness : list step :=
-  [SockRecv (D 7 1 8); LoopRecv; LoopSend; ConnRead 0 9000; ConnIdle 0; LoopClose;
-   SockRecv (D 7 2 8); LoopRecv; LoopSend; ConnRead 1 9000;
+  [SockRecv (D 7 1 8%N); LoopRecv; LoopSend; ConnRead 0 9000%N; ConnIdle 0; LoopClose;
+   SockRecv (D 7 2 8%N); LoopRecv; LoopSend; ConnRead 1 9000%N;
    HandlerReturn 0; CloseStep 0; CloseStep 0; CloseStep 0; CloseStep 0; LoopClose;
-   SockRecv (D 7 3 8); LoopRecv; LoopSend; ConnRead 2 9000].
+   SockRecv (D 7 3 8%N); LoopRecv; LoopSend; ConnRead 2 9000%N].
 
 Definition two_live (s : state) : Prop :=
   exists c1 c2 k1 k2, c1 <> c2 /\ get s c1 = Some k1 /\ get s c2 = Some k2 /\ caddr k1 = caddr k2 /\
